@@ -58,6 +58,10 @@ type Model struct {
 	Requests map[string]int
 	After    map[string]int // how many times a token continued past each node (sub-processes, catch events)
 	Log      []string
+	// parallel-multiple catch events: per node, how often each definition has been matched
+	// while the node was listening, and how often the node has fired
+	pmCount map[string]map[string]int
+	pmFired map[string]int
 }
 
 func NewModel(g *Graph, vars map[string]any) *Model {
@@ -539,10 +543,39 @@ func (m *Model) Deliver(kind, ref string) {
 		}
 		return false
 	}
-	// intermediate catch events
+	// intermediate catch events; a parallel-multiple one counts the match (once per delivery,
+	// only while a token waits there) and fires when every definition has been matched more
+	// often than the node has fired
 	var fire []*Tok
+	pmDecided := map[string]bool{}
 	for _, t := range m.waiting {
 		if t.At.Kind == Catch && match(t.At) {
+			if n := t.At; n.ParallelMult {
+				fires, seen := pmDecided[n.ID]
+				if !seen {
+					if m.pmCount == nil {
+						m.pmCount, m.pmFired = map[string]map[string]int{}, map[string]int{}
+					}
+					if m.pmCount[n.ID] == nil {
+						m.pmCount[n.ID] = map[string]int{}
+					}
+					m.pmCount[n.ID][kind+":"+ref]++
+					least := -1
+					for _, d := range n.Defs {
+						if c := m.pmCount[n.ID][d.Kind+":"+d.Ref]; least < 0 || c < least {
+							least = c
+						}
+					}
+					fires = least > m.pmFired[n.ID]
+					if fires {
+						m.pmFired[n.ID]++
+					}
+					pmDecided[n.ID] = fires
+				}
+				if !fires {
+					continue
+				}
+			}
 			fire = append(fire, t)
 		}
 	}
